@@ -46,7 +46,15 @@ for out in sorted(glob.glob('/tmp/wt/C*-out')) + sorted(glob.glob('/tmp/wt2/C*-o
             'caught_by_target_property_check': any(c.startswith(pid) for c in caught),
             'first_detail_line_of_target_check': detail,
         }
-        json.dump(meta, open(os.path.join(d, 'meta.json'), 'w'), indent=1)
+        mp = os.path.join(d, 'meta.json')
+        if os.path.exists(mp):
+            try:
+                prev = json.load(open(mp))
+                if 'run_against_repo' in prev:
+                    meta['run_against_repo'] = prev['run_against_repo']
+            except Exception:
+                pass
+        json.dump(meta, open(mp, 'w'), indent=1)
         first = notes.strip().splitlines()[0] if notes.strip() else ''
         rows.append((pid, label, 'confirmed', caught, first))
 with open(os.path.join(ROOT, 'MATRIX.md'), 'w') as f:
